@@ -172,7 +172,7 @@ let handle_line line =
       | _ -> failwith "NEWWORLD args"
     end else begin
       let ws = Hashtbl.find worlds wk in
-      if ws.dead then () else
+      if ws.dead then (if cmd = "DUMP" then incr ndumps (* keep the dump numbering of the implementation side *)) else
       let e = ent_of ws and n s = nat_of_int (int_of_string s) in
       let zz s = z_of_int (int_of_string s) in
       let bit01 s = s = "1" in
